@@ -152,6 +152,32 @@ def step (st : Option KV.TrieLM.Trie) (line : String) : Option KV.TrieLM.Trie ×
         (some (KV.TrieLM.ofLayout (natOfBytes bs) q a cfg counts ll.search), s!"ok search={ll.search} bytes={bs.length}")
       | _, _ => (st, "bad-op")
     | _, _, _ => (st, "bad-op")
+  | "triecheck" :: order :: toks =>
+    -- triecheck order  ids:p:b:begin:end …  (middle/unigram keys)   ids:p (longest keys); ids comma separated, reversed n-gram
+    match st, order.toNat? with
+    | some M, some order =>
+      let parsed := toks.mapM fun t =>
+        match t.splitOn ":" with
+        | [ids, p, b, bg, en] =>
+          match nats (ids.splitOn ","), p.toNat?, b.toNat?, bg.toNat?, en.toNat? with
+          | some k, some p, some b, some bg, some en =>
+            some (k, ({ prob := KV.TrieLM.f32ToRat p, backoff := KV.TrieLM.f32ToRat b, extendsLeft := bg != en,
+                        extendsRight := b != KV.TrieLM.noExtensionBits, blank := false } : KV.Table.TEntry), (bg, en))
+          | _, _, _, _, _ => none
+        | [ids, p] =>
+          match nats (ids.splitOn ","), p.toNat? with
+          | some k, some p => some (k, ({ prob := KV.TrieLM.f32ToRat p, backoff := 0, extendsLeft := false, extendsRight := false,
+                                          blank := false } : KV.Table.TEntry), (0, 0))
+          | _, _ => none
+        | _ => none
+      match parsed with
+      | some es =>
+        let ft : KV.TrieLM.FT := es.map fun e => (e.1, e.2.1)
+        let rngs := es.map fun e => (e.1, e.2.2)
+        let rng := fun g => (rngs.lookup g).getD (0, 0)
+        (st, s!"triecheck {KV.TrieLM.check KV.TrieLM.f32ToRat M ft order rng} keys={es.length}")
+      | none => (st, "bad-op")
+    | _, _ => (st, "err notrie")
   | "trieq" :: ws =>
     match st, nats ws with
     | some M, some ws => (st, fmtChain M.order (KV.TrieLM.lookupChain M ws))
